@@ -54,7 +54,7 @@ func outsideDelivery(in ssa.Instruction) bool {
 
 func rulesC01(c *Ctx) {
 	c.Explain = append(c.Explain,
-		"C01 (replicas compute identical state and results) — decided: (a) MAPORDER: every iteration over a Go map (range, maps.Keys/Values/All) in the call-graph cone of the ABCI execution entry points (InitChain/BeginBlock/ExecuteTx/EndBlock/ExecuteMessage of every application, the multiplexer's block methods, PrepareProposal/ProcessProposal) is order-insensitive by construction: its body only declares locals, collects into slices that are sorted before their first order-sensitive use, performs per-key map updates, commutative integer/quantity accumulation, existential flags, or uniform early exits; anything else must be a reviewed table row; (b) no wall clock, unseeded or true randomness, process environment, local configuration or local identity is consulted on that cone outside CheckTx/simulation branches (reviewed table rows aside); no goroutine is started and no channel is received from on the cone; (c) the proposal cache is keyed on everything that is recorded: every field stored by PrepareProposal's proposalState is compared by isEqual, and needsExecution tests every field setResults sets; (d) CheckTx/simulation contexts are built on trees other than the delivery tree, whose writers are confined; (e) applications are dispatched in the order of a list built by sorting their names.",
+		"C01 (replicas compute identical state and results) — decided: (a) MAPORDER: every iteration over a Go map (range, maps.Keys/Values/All) in the call-graph cone of the ABCI execution entry points (InitChain/BeginBlock/ExecuteTx/EndBlock/ExecuteMessage of every application, the multiplexer's block methods, PrepareProposal/ProcessProposal) is order-insensitive by construction: its body only declares locals, collects into slices that are sorted before their first order-sensitive use, performs per-key map updates, commutative integer/quantity accumulation, existential flags, or uniform early exits; anything else must be a reviewed table row; (b) no wall clock, unseeded or true randomness, process environment, local configuration or local identity is consulted on that cone outside CheckTx/simulation branches (reviewed table rows aside); no goroutine is started and no channel is received from on the cone; (c) the proposal cache is keyed on everything that is recorded: every field stored by PrepareProposal's proposalState is compared by isEqual, and needsExecution tests every field setResults sets; (d) CheckTx/simulation contexts are built on trees other than the delivery tree, whose writers are confined; (e) applications are dispatched in the order of a list built by sorting their names; (round 2) (f) local-configuration accessors are sinks also when called on the concrete state type; (g) calls that change the node-local upgrade manager from the applications sit in BlockContext.OnCommit callbacks, which doCommit runs after the state commit and before dropping the block context (F22, found by a sub-agent and repaired); (h) PrepareProposal forwards every local last-commit vote to its own execution; (i) resetProposal assigns a freshly constructed canonical tree on every path.",
 		"NOT decided: byte equality of results across replicas for concrete histories, equality of cached and re-executed results, reload from disk, concurrency of queries/pruning with delivery (schedules).")
 	g := c.P.CallGraph()
 	entries := abciEntries(c.P, g)
@@ -129,6 +129,7 @@ func rulesC01(c *Ctx) {
 		}
 	}
 	c.Extra["sink_sites_on_cone"] = nSinks
+	rulesC01Round2(c, g, cone, parent)
 
 	// ---- (c) proposal cache completeness
 	ix := c.P.BuildIndex()
